@@ -33,7 +33,7 @@ ARGV0 = 'main.py'
 
 MATCHER_OK = {'(="\U0001F600")': True, '(="é\u2028")': True,
               'wl_pointer': True, '! .motion': True, '(="a b")': True, '[': False, 'a:b:c': False, '(="q\\z")': True,
-              'wl_surface.commit': True, '(="a\\tb")': True}
+              'wl_surface.commit': True, '(="a\\tb")': True, 'run': True, 'g': True}
 
 UNITS = [
     ('-C',), ('--color',), ('--supress',), ('-p',), ('-r',), ('-g',), (PROG,),
@@ -45,6 +45,8 @@ UNITS = [
     ('-f', '(="\U0001F600")'), ('-b', '(="é\u2028")'), ('-l', ''), ('--',),
     # single-dash words of other programs: forwarded verbatim after a marker, rejected before one
     ('-rf',), ('-geometry', '80x24'),
+    # option values that spell a marker without its dashes
+    ('-f', 'run'), ('-l', 'gdb'), ('-b', 'g'),
 ]
 MARKER_UNITS = {('-r',), ('-g',), ('--run',), ('--gdb',), ('-Cr',), ('-Cg',), ('-pr',)}
 
@@ -204,6 +206,11 @@ def check_gdb_runner(a, exp, case, detail):
     right = exp['right']
     if not args or args[0] != 'gdb' or args[len(args) - len(right):] != right or '-ex' not in args:
         V.append(Violation('gdb.forwarded', case, dict(detail, gdb_command=args)))
+        return V
+    # GDB gets the tool's own words (the python command that starts the plugin), then the forwarded words and nothing
+    # between or among them: a word slipped in there (`--args`) changes what GDB takes the forwarded words for
+    if args[args.index('-ex') + 2:] != right:
+        V.append(Violation('gdb.forwarded', case, dict(detail, gdb_command=args, after_own_command=args[args.index('-ex') + 2:], forwarded=right)))
         return V
     cmd = args[args.index('-ex') + 1]
     want = [ARGV0] + exp['left']
